@@ -205,7 +205,7 @@ package main
 //@   call deleteTempFiles#1 assert [C10] $0 == conf.OutputDir && ncalls("Listen") == 0
 //@   loop 1 invariant conf != nil && frameLogIntervalFirstMin >= 1 && frameLogInterval >= 1 && ncalls("deleteTempFiles") == 1
 //@   call Listen#1 assert [C10] ncalls("deleteTempFiles") == 1 && callres("deleteTempFiles", 1) == nil
-//@   call handleConn#1 assert [C11,C14] $1 == conf && $0 == siteres("Accept", 1).0 && siteres("Accept", 1).1 == nil
+//@   call handleConn#1 assert [C02,C03,C04,C05,C07,C08,C11,C14,C15,C17] $1 == conf && ncalls("ParseConfig") == 1 && conf == siteres("ParseConfig", 1).0 && $0 == siteres("Accept", 1).0 && siteres("Accept", 1).1 == nil
 
 // Package initialisation: the pattern that maps a temporary recording name to its
 // final name strips exactly a trailing ".temp"; the frame-log intervals start positive.
@@ -225,6 +225,8 @@ package main
 //@   check [C11,C05] result1 == nil && sitehappened("NewConfig", 1) && sitehappened("NewConfig", 2) ==> result0.Throttler.Activate == siteres("NewConfig", 2).0.Activate && result0.Throttler.BucketSize == siteres("NewConfig", 2).0.BucketSize && result0.Throttler.MinRefill == siteres("NewConfig", 2).0.MinRefill
 //@   check [C11] sitehappened("Unmarshal", 4) ==> result1 == nil ==> result0.Location == locationConfig
 //@   check [C11] result1 == nil ==> sitehappened("Unmarshal", 4)
+//@   check [C04,C10,C11] sitehappened("Unmarshal", 4) ==> sitearg("Unmarshal", 2, 1) == config.ThermalRecorderKey && sitearg("Unmarshal", 3, 1) == config.LeptonKey && sitearg("Unmarshal", 4, 1) == config.DeviceKey
+//@   check [C04,C05,C11] sitehappened("NewConfig", 1) && sitehappened("NewConfig", 2) ==> sitearg("New", 1, 0) == configFolder && sitearg("NewConfig", 1, 0) == siteres("New", 1).0 && sitearg("NewConfig", 2, 0) == siteres("New", 1).0
 //@   check [C11] happened("Unmarshal", 1) ==> callarg("Unmarshal", 1, 1) == config.LocationKey && atcall("Unmarshal", 1, locationConfig.Latitude == f32zero() && locationConfig.Longitude == f32zero() && locationConfig.Altitude == f32zero() && locationConfig.Accuracy == f32zero())
 
 //@ func (c *Config) LoadMotionConfig
